@@ -642,6 +642,11 @@ func serveWs(closed <-chan struct{}, w http.ResponseWriter, r *http.Request, con
 
 	ttl := token.ExpiresAt.Unix() - now
 
+	// time.Duration(ttl) * time.Second wraps to a negative duration beyond ~292 years
+	if maxTTL := int64(math.MaxInt64 / time.Second); ttl > maxTTL {
+		ttl = maxTTL
+	}
+
 	audok := false
 
 	for _, aud := range token.Audience {
